@@ -171,17 +171,22 @@ CHECKS = {
        "Repaired while building: SX127x Frf was truncated instead of rounded (one step below the reference for about half of all frequencies).",
   tech="machine-checked proof in Coq (command / register encodings = datasheet formats for all parameters) + translator-regenerated PHY tables + three-way pin-level correspondence (model, driver, Semtech reference driver)", ref="6 C13"),
  "C14": dict(
-  text="Coq theorems (so far) C14_wrong_mode_refused_without_commanding: for every radio kind, every emulated chip state and every accumulated trace, "
-       "tx / start_rx / rx_switch_channel / complete_rx / rx / get_rx_result / cad invoked in the wrong mode return InvalidRadioMode, leave the chip and the "
-       "driver's fields unchanged and add nothing to the pin-level trace. The other three clauses (no command to a sleeping chip before the wake-up; "
-       "everything reprogrammed after cold sleep / reset before the next TX/RX starts; failed operations end in standby with the driver knowing) are "
-       "judged on every run by a chip-side monitor (Spec/ChipMon.v in Coq and, independently, vlib/phymon.py; compared with each other on the real traces) "
-       "over the pin-level traces of the real drivers, and the Coq model of the LoRa layer + both drivers + the LoRaWAN adapter is compared with the "
-       "real code on the same histories: 21 contexts x all operations x interrupt outcomes, a fault at every pin event and a never-completing wait at every "
-       "await_irq, all operation pairs (thorough: triples), random histories, adapter pairs; SX1261/SX1262/STM32WL/SX1276/SX1272 boards.",
-  note=COMMON_NOTE + "PARTIAL: theorems exist for clause 1 only at this commit; clauses 2-4 are decided by the monitor oracle on generated histories, which is a test and not a proof. "
-       "The chip's own behaviour (mode changes on commands and interrupts, what sleep and reset lose) is the datasheet reading written in Spec/ChipMon.v (trusted).",
-  tech="machine-checked proof in Coq (clause 1) + model/implementation correspondence on API histories with faults and cancellations + chip-side monitor oracle (clauses 2-4, partial)", ref="6 C14"),
+  text="Coq theorems: C14_wrong_mode_refused_without_commanding (tx / start_rx / rx_switch_channel / complete_rx / rx / get_rx_result / cad in the wrong "
+       "mode: InvalidRadioMode, chip and driver fields unchanged, nothing on the pins -- any radio kind, any chip state); C14_sx126x_every_history / "
+       "C14_sx127x_every_history: along EVERY history of the 13 LoRa-layer operations run by the interpreter on the emulated chip with any register/read "
+       "contents, any interrupt script, a fault at any SPI/BUSY/IRQ position, any wait that never completes, the environment changing the chip freely "
+       "between operations, the chip-side monitor (Spec/ChipMon.v) never sees a command reach an un-woken sleeping chip nor a TX/RX/CAD start with "
+       "something un-programmed since the configuration was lost, and the driver's fields agree with the chip's mode (invariant proved through a "
+       "weakest-precondition calculus with soundness for `run`, generic in the radio kind; both drivers proved to satisfy the primitive specs); "
+       "C14_*_failed_operation: non-pin failures end in standby on both sides (prepared state kept only for errors before the start / after the end; "
+       "continuous RX goes on). The model is tied to the code on every run: 21 contexts x all operations x interrupt outcomes, a fault at every pin "
+       "position and a pending wait at every await_irq, all pairs (thorough: triples), random histories, LoRaWAN adapter; the Coq monitor is compared "
+       "with an independent python monitor on the real traces, and the rules are judged on the real driver's traces as well.",
+  note=COMMON_NOTE + "PARTIAL in two respects: (1) SX127x LoRa-mode selection after a failed reset sequence is a known finding (id sx127x-failed-reset-leaves-fsk-mode; "
+       "Coq witness C14_sx127x_lora_mode_refuted), so the SX127x theorem leaves that item out; (2) the chip's own behaviour (mode changes on commands and "
+       "interrupt flags, what sleep / reset lose, when RxDutyCycle sleeps) is the datasheet reading written in Spec/ChipMon.v -- trusted, not derived from silicon. "
+       "Faults are on SPI / BUSY / IRQ as the property says (reset and RF-switch outputs do not fail). enter_standby / get_rssi / continuous_wave are outside the property's operation list.",
+  tech="machine-checked proof in Coq (invariant over all API histories, faults and cancellations via a sound weakest-precondition calculus) + model/implementation correspondence on histories + chip-side monitor oracle", ref="6 C14"),
  "C15": dict(
   text="Coq theorems: every driver's LDRO decision and the bit programmed into the chip equal the airtime calculator's, and that "
        "decision is 'on' exactly when 2^SF*10^6 >= 16384*BW (exact arithmetic) for all SF 5..12 x all 10 bandwidths. The models are "
